@@ -263,8 +263,13 @@ class FSA:
                 self._out_dict[tail][head] = []
                 self._in_dict[head][tail] = []
 
-            if ignore_redundant and label in self._out_dict[tail][head]:
-                continue
+            if ignore_redundant:
+                if elist:
+                    # label is a list here: test its entries one by one
+                    label = [l for l in label
+                             if l not in self._out_dict[tail][head]]
+                elif label in self._out_dict[tail][head]:
+                    continue
 
             if elist:
                 self._out_dict[tail][head] += label
